@@ -66,6 +66,7 @@ def make_si(ctx, k, tag='', f0=193.0e12, spacing=50e9, baud=32e9, slot=None, fre
                     'tx_osnr', 'tx_power', 'pch', 'signal_ratio', 'ase_ratio', 'nli_ratio'):
             kw[key] = np.asarray(kw[key], dtype=object)
     si = SpectralInformation(**kw)
+    si._verif_raw = dict(p=list(p), s=list(s), a=list(a), n=list(n))      # the values handed to the constructor
     return si
 
 
